@@ -8,7 +8,7 @@ X = "Exploration, not proof: the property held on every generated / enumerated c
 CHECKS = {
  "C01": ("model-based stateful PBT (rapid) + bounded-exhaustive permutation pairs vs comparator-aware map model",
          X + "Histories of Put/Remove/Get/Clear and runs on all 8 key-value kinds x comparator family x B-tree orders are compared with a map model after every step (touched/present/absent/just-removed Get, Size, Empty, position-aligned or multiset Keys/Values); all insertion x removal permutations of k keys enumerate every tree shape reachable that way.",
-         "Trusts the map model, rapid and the comparator family (all strict weak orders); int keys/values only; comparator-equal keys compared modulo the comparator.",
+         "Trusts the map model, rapid and the comparator family (all strict weak orders); int keys/values in the model-based histories (other element types through the type-isomorphism and default-constructor targets, DESIGN §8.9-8.10); comparator-equal keys compared modulo the comparator.",
          "DESIGN.md §4 C01"),
  "C02": ("model-based PBT vs comparator-sorted model with probe keys between neighbours",
          X + "Ordered kinds x 5 comparators (incl. two many-to-one) x orders: Keys/Values/forward+backward iteration strictly ascending and equal to the model, least/greatest accessors, Floor/Ceiling against a model scan with exact found-flag, probes below/between/above.",
@@ -60,7 +60,7 @@ CHECKS = {
          "DESIGN.md §4 C13"),
  "C14": ("model-based PBT over predicate and mapper families with callback logs and fingerprints",
          X + "Each/Any/All/Find/Select/Map on the 8 enumerable kinds x comparators: callback log equals the iterator sequence, Any/All/Find equal exists/for-all/first, Select/Map equal the kind's model fed the elements in order, results are new and keep the ordering discipline, receiver keeps contents and fingerprint.",
-         "Pure callbacks; representative among equal-comparing values not asserted.",
+         "Pure callbacks; Map results also compared exactly with a new container fed the mapped elements one by one (DESIGN §8.7).",
          "DESIGN.md §4 C14"),
  "C15": ("reflective API-surface PBT: invariants after every exported call + cleared-vs-fresh lock-step differential",
          X + "Histories over every exported method of all 21 kinds: Empty<=>Size==0, len(Values)==len(Keys)==Size, Full<=>Size==cap, String prefix, observers leave the fingerprint; after Clear a continuation is applied in lock-step to the cleared and to a fresh container and every result and observer must agree.",
@@ -68,7 +68,7 @@ CHECKS = {
          "DESIGN.md §4 C15"),
  "C16": ("metamorphic aliasing PBT with spare-capacity slices and deep fingerprint",
          X + "Writes to returned Values()/Keys() slices (incl. appends into spare capacity) never reach the container; later container changes never reach earlier slices; slices passed to variadic constructors and Add/Append/Prepend/Insert/Push are copied; GetSortedValues* return sorted contents and leave contents, order, fingerprint and pop sequence intact.",
-         "int elements.",
+         "int elements (float64 with NaN for GetSortedValues).",
          "DESIGN.md §4 C16"),
  "C17": ("reflective API-surface fuzzing-style PBT: every exported method with wild arguments; panic = failing case, fd 1/2 capture, watchdog",
          X + "Every exported method of all 21 containers and all iterator methods (enumerated by reflection; evidence lists them) is called with wild indices, colliding/huge elements, empty variadics, hostile JSON bytes, synthesised callbacks/comparators/peers; no panic, no byte on stdout/stderr, every case within a 60 s watchdog.",
@@ -87,6 +87,8 @@ for p in props:
     pid = p["id"]
     if pid in CHECKS:
         tech, text, note, ref = CHECKS[pid]
+        text += " Extended after five rounds of seeded changes (DESIGN §8.5-8.10): JSON loads through all three entry points inside the histories, rewound long-lived iterators, containers with a past, further element types (float64 with NaN, any, uint8, an 80-byte struct, 13 ordered types for the default constructors), comparators with results beyond 32 bits, size ladders past 512..8192, and a replay tier of the shrunk failing cases of the seeded changes."
+        ref += "; §8"
         checks.append({
             "property_id": pid,
             "quick_cmd": f"./check {pid} quick",
